@@ -39,6 +39,16 @@ func loadWorld() (*World, error) {
 		funcs: map[string]*ssa.Function{}, globals: map[*ssa.Global]int{}, inlineStd: map[string]bool{}}
 	packages.Visit(pkgs, nil, func(p *packages.Package) {
 		w.pkgs[p.PkgPath] = p
+		for _, f := range p.Syntax {
+			for _, im := range f.Imports {
+				if im.Name != nil && im.Name.Name != "_" && im.Name.Name != "." {
+					if importAliases[p.PkgPath] == nil {
+						importAliases[p.PkgPath] = map[string]string{}
+					}
+					importAliases[p.PkgPath][im.Name.Name] = strings.Trim(im.Path.Value, "\"")
+				}
+			}
+		}
 	})
 	for _, sp := range prog.AllPackages() {
 		w.spkgs[sp.Pkg.Path()] = sp
